@@ -1,6 +1,7 @@
 //! vnative — engine N: generated cases executed against the real crate in an isolated worker
 //! process on this x86-64 host.  See /verif/DESIGN.md §2.1.
 
+mod acct;
 mod arena;
 mod asyncs;
 mod driver;
@@ -444,7 +445,7 @@ fn cmd_hist(prop: &str) -> i32 {
             let thorough = vcommon::tier() == vcommon::Tier::Thorough;
             run_sharded(&mut rec, 12, n, shards(), "hist", optv, Duration::from_secs(600), move || {
                 use proptest::prelude::*;
-                (hist::strategy(3, 8, false), if thorough { 1u32..=4000 } else { 1u32..=120 }, any::<bool>()).prop_map(|(mut c, r, many)| {
+                (hist::strategy_all(3, 8, false, false, 0.0, 0.25), if thorough { 1u32..=4000 } else { 1u32..=120 }, any::<bool>()).prop_map(|(mut c, r, many)| {
                     c.repeat = if many { r } else { 1 + r % 4 };
                     c
                 })
